@@ -439,6 +439,10 @@ func relayLayerCaseMode(t *testing.T, r *Recorder, seed, mode int) {
 				bad = fmt.Sprint(p)
 			}
 		}()
+		wd := time.AfterFunc(90*time.Second, func() {
+			panic("harness watchdog: a relay-layer script is still running after 90 s of real time; a stream function of the mailbox layer is wedged (waiting for a lock it will never get?)")
+		})
+		defer wd.Stop()
 		synctest.Test(t, func(t *testing.T) {
 			relay := NewFakeRelay()
 			var x, y [64]byte
